@@ -28,6 +28,9 @@ from collections import Counter
 
 HERE = os.path.dirname(os.path.dirname(os.path.abspath(__file__)))
 N_WORKERS = int(os.environ.get("VERIF_WORKERS", "16"))
+# where evidence and newly found replay files are written (mutant / scratch-tree runs point this elsewhere so that the
+# committed evidence always comes from a run against /repo itself)
+OUT = os.environ.get("VERIF_OUT", HERE)
 MAX_SAMPLES = 5
 MAX_VIOL_PER_BUCKET = 4
 
@@ -257,7 +260,7 @@ def shrink_case(mod, case, kind, sig, budget=40):
 
 
 def write_evidence(mod, tier, seed, merged, wall, n_viol, extra_cov=None):
-    os.makedirs(os.path.join(HERE, "evidence"), exist_ok=True)
+    os.makedirs(os.path.join(OUT, "evidence"), exist_ok=True)
     cov = {
         "evaluations": int(merged["evaluations"]),
         "distinct_nontrivial": len(merged["sigs"]),
@@ -282,7 +285,7 @@ def write_evidence(mod, tier, seed, merged, wall, n_viol, extra_cov=None):
         "wall_s": round(wall, 2),
         "violations": int(n_viol),
     }
-    path = os.path.join(HERE, "evidence", f"{mod.ID}.json")
+    path = os.path.join(OUT, "evidence", f"{mod.ID}.json")
     with open(path, "w") as f:
         json.dump(ev, f, indent=1, default=str)
     return path
@@ -359,10 +362,10 @@ def run_check(prop_name, tier, seed):
             case, _ = shrink_case(mod, case, kind, sig, budget=40 if tier == "quick" else 120)
         except BaseException:
             pass
-        os.makedirs(os.path.join(HERE, "replay", mod.ID, "found"), exist_ok=True)
+        os.makedirs(os.path.join(OUT, "replay", mod.ID, "found"), exist_ok=True)
         name = re.sub(r"[^A-Za-z0-9_.-]+", "_", kind)[:60] + "-" + jhash(case) + ".json"
         rel = os.path.join("replay", mod.ID, "found", name)
-        with open(os.path.join(HERE, rel), "w") as f:
+        with open(os.path.join(OUT, rel), "w") as f:
             json.dump({"property": mod.ID, "kind": kind, "sig": sig, "detail": v["detail"], "case": case}, f, indent=1, default=str)
         lines.append(f"VIOLATION property={mod.ID} replay={rel}  kind={kind} sig={sig} count={merged['bucket_counts'].get(kind + '|' + sig, 1)} :: {v['detail'][:300]}")
         n_viol += 1
